@@ -52,8 +52,8 @@ def finish_worker(ctx):
 def make_case(ctx, idx):
     r = case_rng(ctx.seed, ID, idx)
     if r.random() < 0.5:
-        return {"fmt": "json", "ops": gen.Gen(r, gen.profile("c01")).program(), "opt": r.randrange(len(c01.OPTS))}
-    return {"fmt": "xml", "ops": gen.Gen(r, gen.profile("c02")).program(), "dest": r.choice(["str", "bytes"])}
+        return {"fmt": "json", "ops": gen.Gen(r, gen.profile("c01", multi_member=0.15)).program(), "opt": r.randrange(len(c01.OPTS))}
+    return {"fmt": "xml", "ops": gen.Gen(r, gen.profile("c02", multi_member=0.15)).program(), "dest": r.choice(["str", "bytes"])}
 
 
 def problems_json(doc, opt):
